@@ -435,6 +435,12 @@ def bounded(rep, tier):
         for kind, msg in check_plan(plan):
             fails.setdefault(f'C09.bounded.{kind}', (sc.get('sql') or sc['source'], msg))
     try:
+        for sql, msg in plans.reuse_history_problems():
+            fails.setdefault('C09.bounded.planner-reuse', (sql, msg))
+        n += sum(len(x) for x in plans.REUSE_HISTORIES)
+    except Exception as e:
+        fails.setdefault('C09.bounded.planner-reuse', ('planner re-use sequences', f'{type(e).__name__}: {e}'[:160]))
+    try:
         for sql, msg in history_problems():
             fails.setdefault('C09.bounded.history', (sql, msg))
         n += sum(len(x) for x in HISTORY)
